@@ -13,6 +13,14 @@ func Register(reg *kernel.Registry) {
 		reg.Serves[p] = append(reg.Serves[p], "ag")
 	}
 	reg.Serves["C13"] = append(reg.Serves["C13"], "ag")
+	reg.Scenarios["ics20"] = ICS20Scenario{}
+	reg.Components["ics20"] = [2][]string{
+		{"two teleport applications with real ibc-go core (clients, connection, channel handshakes, packet commitments, proofs) and the ICS-20 transfer application wrapped by the aggregate middleware; MsgTransfer and MsgRecvPacket through DeliverTx"},
+		{"Tendermint consensus and the relayer (ibc-go's testing coordinator)", "registry changes on the receiving chain are made by keeper calls, as in the repository's own tests"},
+	}
+	reg.Serves["C16"] = append(reg.Serves["C16"], "ics20")
+	reg.MinProbes["C16"] = []string{"ics20.recv.valid"}
+	reg.Assumptions["C16"] = []string{"ibc-go's testing coordinator generates its account and validator keys from crypto/rand: runs are replayable in behaviour (plan -> outcome) but addresses differ, so the event log avoids addresses", "sampling, not enumeration"}
 	reg.MinProbes["C11"] = []string{"convert.ok.convcoin", "convert.ok.converc", "convert.rejected"}
 	reg.MinProbes["C12"] = []string{"proposal.PROPOSAL_STATUS_PASSED"}
 	reg.MinProbes["C20"] = []string{"vest.released"}
